@@ -143,4 +143,20 @@ def decompress (b : List Nat) : Point :=
   | t :: rest => if rest.length = 32 ∧ (t = 2 ∨ t = 3) then liftX (fromBytes rest) (t == 3) else none
   | [] => none
 
+/-- `secp256k1.ParsePubKey` (dcrd): SEC1 compressed (02/03‖X), uncompressed (04‖X‖Y) and hybrid (06/07‖X‖Y, the tag
+    carrying the parity of Y); the coordinates must be field elements on the curve -/
+def parseSec1 (b : List Nat) : Point :=
+  match b with
+  | t :: rest =>
+    if rest.length = 32 then (if t = 2 ∨ t = 3 then liftX (fromBytes rest) (t == 3) else none)
+    else if rest.length = 64 ∧ (t = 4 ∨ t = 6 ∨ t = 7) then
+      let x := fromBytes (rest.take 32)
+      let y := fromBytes (rest.drop 32)
+      if x ≥ p ∨ y ≥ p then none
+      else if y * y % p ≠ (x * x % p * x + 7) % p then none
+      else if (t = 6 ∨ t = 7) ∧ (y % 2 == 1) != (t == 7) then none
+      else some (x, y)
+    else none
+  | [] => none
+
 end BandVerif.Secp
